@@ -15,7 +15,7 @@ CHECK = {
                     'bucket counts stay far below the point where sizeof(bucket)*n wraps (outside the stated properties)',
                     'gcc 12 ASan/UBSan runtimes; harness model = set of live element addresses per table'],
     'runs': [
-        {'harness': 'hash', 'mode': 'lookup', 'sources': ['harness/hash.c'] + EX, 'configs': both(['dbg-asan'], ['dbg-asan', 'rel-asan'])},
+        {'harness': 'hash', 'mode': 'lookup', 'sources': ['harness/hash.c'] + EX, 'configs': both(['dbg-asan'], ['dbg-asan', 'rel-asan', 'rel-plain']),},
     ],
 }
 
